@@ -702,7 +702,7 @@ func run(r *core.Run) {
 		name string
 		f    func(*core.Run)
 	}{{"identity", identityCases}, {"chain", chainCases}, {"server", serverCases}, {"fake", fakeWorlds}, {"grpc", grpcCases}, {"translator", translatorCases},
-		{"tokens", tokenCases}, {"tokcol", tokColCases}, {"stores", realStores}} {
+		{"tokens", tokenCases}, {"tokcol", tokColCases}, {"px", pxCases}, {"stores", realStores}} {
 		if only == "" || strings.Contains(","+only+",", ","+g.name+",") {
 			g.f(r)
 		}
